@@ -162,7 +162,7 @@ func Run(r *core.Report, env *build.Env) {
 			cells = append(cells, func() { x.cellCast(t) })
 		}
 		cells = append(cells, x.textCells()...)
-		llh.RunParallel(wrap(r, cells), 16)
+		llh.RunParallel(llh.Wrap(r, cells), 16)
 	}
 }
 
